@@ -661,6 +661,49 @@ def check_registry_tables(run, ctx):
     return n
 
 
+REG_MUTATORS = ('insert', 'remove', 'clear', 'retain', 'drain', 'remove_entry', 'entry', 'extend', 'get_mut', 'values_mut', 'iter_mut')
+
+
+def check_registry_in_place(run, ctx, rule, prefixes, floor):
+    """every modification of a registry table is made in place on the table obtained from its write lock: a copy that is
+    modified and written back (clone under the read lock, insert, swap under the write lock) loses the registrations other
+    threads made in between; so does assigning a whole table through the write guard"""
+    n = 0
+    for b in sorted(ctx.core.bodies.values(), key=lambda x: x.id):
+        if not b.name.startswith(prefixes):
+            continue
+        ex = Expr(b)
+        for bi, t in b.calls():
+            cn = callee_name(t)
+            if (cn.startswith(N.HM) or cn.startswith(N.HASHSET + '::')) and cn.rsplit('::', 1)[-1] in REG_MUTATORS:
+                rec = ex.operand(t['args'][0])
+                # only tables of the registry (reached through a lock or cloned from one); local scratch sets are not tables
+                cs = [c[1] for c in calls_in(rec)]
+                locked = [c for c in cs if c in ('lock_api::rwlock::RwLock::read', 'lock_api::rwlock::RwLock::write', 'lock_api::mutex::Mutex::lock')]
+                if not locked:
+                    continue
+                n += 1
+                short = b.name.rsplit('::', 1)[-1]
+                if 'lock_api::rwlock::RwLock::write' in locked and not any(c.endswith('Clone::clone') and i < cs.index('lock_api::rwlock::RwLock::write') for i, c in enumerate(cs)):
+                    run.ok(rule, '%s/%s/bb%d' % (short, cn.rsplit('::', 1)[-1], bi), 'in place under the write lock')
+                else:
+                    run.bad(rule, '%s/modifies-a-copy' % short, '%s calls %s on a copy of a registry table (%s) instead of the table behind its write lock: entries registered by other threads '
+                            'between the copy and the write-back are lost' % (b.name, cn.rsplit('::', 1)[-1], show(rec)[:160]), site='%s (%s)' % (b.name, b.loc(bi)),
+                            oracle='tables are modified in place under their write lock')
+        for bi, bl in enumerate(b.blocks):
+            if bl['cleanup']:
+                continue
+            for st in bl['stmts']:
+                if st['k'] == 'assign' and (st['dst'].get('proj') or [None])[0] == 'deref' and len(st['dst']['proj']) == 1:
+                    src = ex.operand({'copy': {'l': st['dst']['l']}})
+                    if any(c[1] == 'lock_api::rwlock::RwLock::write' for c in calls_in(src)):
+                        n += 1
+                        run.bad(rule, '%s/replaces-the-table' % b.name.rsplit('::', 1)[-1], '%s assigns a whole new table through the write guard (%s): whatever other threads registered since the '
+                                'new table was computed is lost' % (b.name, b.loc(bi)), site='%s (%s)' % (b.name, b.loc(bi)), oracle='tables are modified in place under their write lock')
+    run.require(rule, 'registry table modifications', n, floor)
+    return n
+
+
 def check_registry_routing(run, ctx):
     """C13-S1: invalidate_with routes the predicate to the named cache only; invalidate_all_with gives each cache its own name"""
     n = 0
